@@ -11,9 +11,11 @@ def strings(alpha, maxlen):
         for t in itertools.product(alpha, repeat=n):
             yield "".join(t)
 
-# an argument is ("s", text) | ("i", int) | ("d", int)
+# an argument is ("s", text) | (kind, value) with kind one of i d b f h x w t m (see ocaml/fmt_driver.ml); written kind+value
 def warg(a):
-    return "s" + hx(a[1]) if a[0] == "s" else "%s%d" % (a[0], a[1])
+    return "s" + hx(a[1]) if a[0] == "s" else "%s%s" % (a[0], a[1])
+def A(word):
+    return (word[0], word[1:])
 def wargs(l):
     return ",".join(warg(a) for a in l) if l else "."
 def S(x):
@@ -45,15 +47,28 @@ INTS = [0, 1, -1, 7, 10, -10, 42, 99, 100, 999999, -999999, 123456, 2147483647, 
         4611686018427387903, -4611686018427387904, 9223372036854775807, -9223372036854775808]
 DBLS = [0, 1, -1, 5, 10, -10, 100, 1000, 4096, 99999, 100000, 123456, 999999, -999999, -123450]
 
+# arguments whose operator<< leaves formatting state on the stream they are written to (user types, manipulators) ...
+STICKY = ["h255", "h0", "h4096", "x12", "x-3", "w7", "w-12345", "w1234567", "t1", "t0",
+          "mhex", "mboolalpha", "mshowbase", "mshowpos", "muppercase", "mfixed", "mleft",
+          "msetprecision2", "msetprecision0", "msetprecision12", "msetw8", "msetw0", "msetfill2a", "msetfill30"]
+# ... and arguments whose text would change if such state were still around when they are rendered
+SENSITIVE = ["i16", "i-255", "i0", "i9223372036854775807", "i-9223372036854775808", "d100000", "d-7", "d0",
+             "b1", "b0", "f0", "f-1", "f1234", "f-99999", "s78", "s-", "s7b7d"]
+
 def parse_case(case):
-    """-> (kind, format text or None, list of (chunk kind, [args as wire words]))"""
+    """-> (kind, format text or None (joined formats for seq), list of (chunk kind, [args as wire words]))"""
     w = case.split()
-    if w[0] == "fmt":
-        ops = []
-        for o in w[2:]:
-            body = o[2:]
-            ops.append((o[0], [] if body == "." else body.split(",")))
-        return "fmt", unhx(w[1]), ops
+    if w[0] in ("fmt", "seq"):
+        ops, fs, newf = [], [], True
+        for o in w[1:]:
+            if o == "/":
+                newf = True
+            elif newf:
+                fs.append(unhx(o)); newf = False
+            else:
+                body = o[2:]
+                ops.append((o[0], [] if body == "." else body.split(",")))
+        return w[0], (fs[0] if w[0] == "fmt" else " ".join(fs)), ops
     return "exc", None, [("e", w[1:])]
 
 class C08(Check):
@@ -66,21 +81,29 @@ class C08(Check):
     technique = ("Coq proof over an executable model of formatter::str()/operator%/args(...) and make_string "
                  "(loop invariant relating the regex-iterator loop to the split-based formula; reuse of the proved string layer of C17) "
                  "+ extraction-based differential test against the C++")
-    level_text = ("Seventeen theorems proved in Coq for ALL format strings (byte lists) and ALL argument lists over a Gallina model that "
+    level_text = ("Twenty-one theorems proved in Coq for ALL format strings (byte lists) and ALL argument lists over a Gallina model that "
                   "follows formatter::str() statement by statement (regex iterator = next occurrence of '{}' in the format after the previous "
                   "match): the loop equals 'pieces of split \"{}\" fmt interleaved with the arguments' exactly when |args| = number of "
                   "left-to-right non-overlapping '{}' and raises otherwise (less / more), the pieces glue back to the format and contain no "
                   "'{}' (text outside placeholders preserved, lone/nested braces included), arguments enter only by substitution into a "
                   "template computed from the format alone (never rescanned), any mixture of operator% and args(...) builds the same "
-                  "argument list in the order written, the exception message is the concatenation of the rendered arguments, and the "
-                  "model's decimal printer round-trips. The model is tied to /repo by running the extracted model and the real "
+                  "argument list in the order written; every argument is rendered on its own (marker i receives render(argument i), a function "
+                  "of that argument alone: independent of neighbouring arguments — including user types and manipulators that leave "
+                  "hex/fixed/precision/fill/boolalpha on their stream — and of formatters used earlier: format_seq), a manipulator passed as "
+                  "an argument renders as the empty text; the exception message is the concatenation of the rendered arguments (for "
+                  "arguments that leave the stream state alone: make_string shares one stream), and the model's decimal printer "
+                  "round-trips. The model is tied to /repo by running the extracted model and the real "
                   "nitro::format / nitro::except::raise (ASan/UBSan build of the working tree) on the same exhaustive + random cases and "
                   "diffing; an oracle extracted from the spec judges every differing observation")
     level_note = ("trusted: Coq kernel, ExtrOcamlBasic extraction, OCaml compiler, the differential harness. PARTIAL: the 'stream "
                   "representation' of an argument is libstdc++'s operator<< into a stringstream; the model takes std::string arguments "
-                  "byte for byte and renders long / integer-valued double (|v| < 10^6) arguments with a decimal printer — that printer "
-                  "is compared with the real operator<< by the driver only (exercised, not proved), other argument types, stream "
-                  "manipulators and locales are not covered. std::regex's search for the literal '{}' is modelled as first occurrence "
+                  "byte for byte and renders long / bool / integer-valued double (|v| < 10^6) / double z+1/2 (|z| < 10^5) arguments, four "
+                  "user-defined types (hex, fixed+setprecision(2), setfill+left+setw, boolalpha — none restores the stream) and ten "
+                  "manipulators passed as arguments with small printers — those printers are compared with the real operator<< on a "
+                  "fresh stream by the driver only (exercised, not proved); other argument types, imbued locales and iword/pword state "
+                  "are not covered. Exception messages: exception.hpp writes all arguments into ONE stringstream, so a state-changing "
+                  "argument does influence later arguments of the same message (raise(hexer{255},16) = \"ff10\"); the message theorem "
+                  "and the driver are restricted to arguments that leave the stream state alone. std::regex's search for the literal '{}' is modelled as first occurrence "
                   "(find); the correspondence is bounded-exhaustive + sampled, not proved. Only the char instantiation of the formatter "
                   "is exercised (nitro::format(std::string) and nitro::format(const char*); not wchar_t/char16_t/char32_t, not the _nf "
                   "literal); what() is compared for NUL-free messages only")
@@ -89,12 +112,19 @@ class C08(Check):
             "args(...) call) plus a random %/args(...)/args() mixture for tuples of >= 2 arguments, and for the exact argument count "
             "also every tuple over the wider alphabet adding a{, }a, {}{}, }{; structured: random longer formats "
             "built from pieces and placeholders with string / long / integer-valued double arguments and arity off by -2..+2; "
-            "malformed: random bytes (NUL, high bytes, brace runs); exception messages with 1..8 arguments of the three kinds. "
+            "malformed: random bytes (NUL, high bytes, brace runs); state: every (sticky argument, sensitive argument) pair — sticky = "
+            "user type leaving hex/fixed/fill/boolalpha behind or a manipulator, sensitive = long/double/bool/half/string — in one "
+            "format via % and via args(...), and across two or three formatter objects used one after the other in one case (seq), "
+            "sticky-sticky-sensitive triples, random sequences of 1..4 formatters; exception messages with 1..8 state-neutral arguments. "
+            "Each case starts by putting any per-thread formatting state back to the defaults through the public interface (a no-op on "
+            "the current header), so a case line is judged and replayed on its own. "
             "A case is non-trivial when the format has at least one placeholder and at least one argument is supplied, or (exception "
             "cases) when there are >= 2 arguments; distinct = distinct case line")
     modelled_note = ("modelled, not verified: std::regex / std::sregex_iterator search for the literal \\{\\} (modelled as next "
                      "occurrence of the two bytes after the previous match), std::stringstream operator<< for std::string (verbatim), "
-                     "long and integer-valued double (decimal printer; exercised by the driver only), std::string::append, "
+                     "long, bool, integer-valued double, double z+1/2, four state-changing user types and ten manipulators (small printers for a FRESH "
+                     "stream; exercised by the driver only), one fresh stringstream per argument in operator% (tied by the sticky/seq cases), "
+                     "std::string::append, "
                      "std::runtime_error storing the message")
 
     def cases(self, tier, rng):
@@ -154,7 +184,46 @@ class C08(Check):
             n = max(0, k + rng.choice([0, 0, 0, 1, -1]))
             args = [S("".join(rng.choice(alpha) for _ in range(rng.randint(0, 5)))) for _ in range(n)]
             yield fmt_case(f, chain_mixed(args, rng) if rng.random() < 0.5 else chain_pct(args)), "fmt-bytes"
-        # exception messages
+        # (iv) state must not travel from one argument to the next, nor from one formatter to the next:
+        # a sticky argument (user type leaving hex/fixed/fill/boolalpha behind, or a manipulator) followed by a sensitive one
+        for st in STICKY:
+            for se in SENSITIVE:
+                args = [A(st), A(se)]
+                yield fmt_case("{}|{}", chain_pct(args)), "fmt-sticky-pair"
+                yield fmt_case("{}|{}", chain_args(args)), "fmt-sticky-pair"
+                yield "seq %s p:%s / %s p:%s" % (hx("<{}>"), st, hx("[{}]"), se), "seq-sticky-pair"
+                yield "seq %s a:%s / %s / %s a:%s" % (hx("{}"), st, hx("a"), hx("{}{}"), se), "seq-sticky-pair"
+        trip = [(a, b, c) for a in STICKY for b in STICKY for c in SENSITIVE]
+        if tier == "quick":
+            trip = rng.sample(trip, 1500)
+        for a, b, c in trip:
+            args = [A(a), A(b), A(c)]
+            yield fmt_case("{} {} {}", chain_mixed(args, rng)), "fmt-sticky-triple"
+        R = 1500 if tier == "quick" else 30000
+        for _ in range(R):
+            fs = []
+            for _ in range(rng.randint(1, 4)):
+                k = rng.randint(0, 5)
+                f = "{}".join(rng.choice(["", "a", " ", "|", "{", "}", "=", "0x"]) for _ in range(k + 1))
+                k = f.count("{}")
+                n = max(0, k + rng.choice([0, 0, 0, 0, 0, 1, -1]))
+                args = []
+                for _ in range(n):
+                    r = rng.random()
+                    if r < 0.4:
+                        args.append(A(rng.choice(STICKY)))
+                    elif r < 0.85:
+                        args.append(A(rng.choice(SENSITIVE)))
+                    elif r < 0.93:
+                        args.append(("f", rng.randint(-99999, 99999)))
+                    else:
+                        args.append(("h", rng.randint(0, 2**63 - 1)))
+                fs.append([hx(f)] + (chain_mixed(args, rng) if args or rng.random() < 0.3 else []))
+            if len(fs) == 1:
+                yield "fmt " + " ".join(fs[0]), "fmt-sticky-rand"
+            else:
+                yield "seq " + " / ".join(" ".join(g) for g in fs), "seq-rand"
+        # exception messages (arguments that leave the stream state alone: see the scope note in FormatModel.v)
         for n in range(1, 4 if tier == "quick" else 5):
             for t in itertools.product(["", "x", "{}", "a b"], repeat=n):
                 yield "exc " + " ".join(warg(S(x)) for x in t), "exc-exh"
@@ -166,48 +235,71 @@ class C08(Check):
                 r = rng.random()
                 if r < 0.5:
                     args.append(S("".join(rng.choice("ab {}:\xe4\n") for _ in range(rng.randint(0, 6)))))
-                elif r < 0.8:
+                elif r < 0.75:
                     args.append(("i", rng.choice(INTS)))
-                else:
+                elif r < 0.9:
                     args.append(("d", rng.choice(DBLS)))
+                else:
+                    args.append(A(rng.choice(["b0", "b1", "f0", "f-1", "f1234", "f-99999"])))
             yield "exc " + " ".join(warg(a) for a in args), "exc-rand"
 
     def nontrivial(self, case, mobs, iobs):
         kind, f, ops = parse_case(case)
         n = sum(len(a) for _, a in ops)
-        if kind == "fmt":
+        if kind in ("fmt", "seq"):
             return "{}" in f and n >= 1
         return n >= 2
 
     def signature(self, case, mobs, iobs):
         kind, f, ops = parse_case(case)
         n = sum(len(a) for _, a in ops)
-        if kind == "fmt":
+        flat = [a for _, l in ops for a in l]
+        kinds = "".join(sorted(set(a[0] for a in flat)))
+        if kind in ("fmt", "seq"):
             k = f.count("{}")
             styles = "".join(sorted(set(c for c, _ in ops)))
-            kinds = "".join(sorted(set(a[0] for _, l in ops for a in l)))
-            braces_in_args = any(a[0] == "s" and ("7b" in a or "7d" in a) for _, l in ops for a in l)
-            return ("fmt", iobs.split(" ")[0], min(k, 5), max(-2, min(2, n - k)), styles, kinds, braces_in_args,
-                    f.startswith("{}"), f.endswith("{}"), "{}{}" in f)
-        kinds = "".join(sorted(set(a[0] for _, l in ops for a in l)))
+            braces_in_args = any(a[0] == "s" and ("7b" in a or "7d" in a) for a in flat)
+            # which sticky kind precedes which sensitive kind
+            sticky_then = tuple(sorted(set((a[:2] if a[0] == "m" else a[0], b[0]) for i, a in enumerate(flat) for b in flat[i + 1:i + 3]
+                                           if a[0] in "hxwtm" and b[0] in "idbfs")))[:4]
+            return (kind, case.count(" / "), iobs.split(" ")[0], min(k, 5), max(-2, min(2, n - k)), styles, kinds, braces_in_args,
+                    f.startswith("{}"), f.endswith("{}"), "{}{}" in f, sticky_then)
         return ("exc", iobs.split(" ")[0], min(n, 8), kinds)
 
     def shrink(self, case):
         w = case.split()
-        if w[0] == "fmt":
-            f = w[1]
-            # drop one byte of the format
-            if f != "-":
-                for j in range(0, len(f), 2):
-                    yield " ".join([w[0], (f[:j] + f[j + 2:]) or "-"] + w[2:])
-            # drop one op, turn an args(...) op into a chain of %, drop / shorten one argument
-            for k in range(2, len(w)):
-                yield " ".join(w[:k] + w[k + 1:])
+        if w[0] in ("fmt", "seq"):
+            # seq: drop one whole formatter; a single formatter left becomes a fmt case
+            if w[0] == "seq":
+                groups, cur = [], []
+                for x in w[1:]:
+                    if x == "/":
+                        groups.append(cur); cur = []
+                    else:
+                        cur.append(x)
+                groups.append(cur)
+                if len(groups) > 1:
+                    for i in range(len(groups)):
+                        g2 = groups[:i] + groups[i + 1:]
+                        yield "seq " + " / ".join(" ".join(g) for g in g2)
+            isfmt = True
+            for k in range(1, len(w)):
                 o = w[k]
+                if o == "/":
+                    isfmt = True
+                    continue
+                if isfmt:
+                    isfmt = False
+                    # drop one byte of the format
+                    if o != "-":
+                        for j in range(0, len(o), 2):
+                            yield " ".join(w[:k] + [(o[:j] + o[j + 2:]) or "-"] + w[k + 1:])
+                    continue
+                # drop one op, drop / shorten one argument
+                yield " ".join(w[:k] + w[k + 1:])
                 body = o[2:]
                 el = [] if body == "." else body.split(",")
                 if o[0] == "a" and el:
-                    yield " ".join(w[:k] + ["p:" + e for e in el] + w[k + 1:])
                     for i in range(len(el)):
                         yield " ".join(w[:k] + ["a:" + (",".join(el[:i] + el[i + 1:]) or ".")] + w[k + 1:])
                 for i, e in enumerate(el):
@@ -221,6 +313,7 @@ class C08(Check):
                     yield " ".join(w[:k] + [e2] + w[k + 1:])
 
 def shrink_arg(e):
+    """smaller well-formed arguments only"""
     if e[0] == "s":
         h = e[1:]
         if h != "-":
@@ -228,7 +321,8 @@ def shrink_arg(e):
                 yield "s" + ((h[:j] + h[j + 2:]) or "-")
     else:
         yield "s-"
-        if len(e) > 2:
-            yield e[:-1] if e[:-1] not in ("i-", "d-") else e[0] + "0"
+        if e[0] in "idfhxw" and len(e) > 2:
+            v = e[1:-1]
+            yield e[0] + (v if v not in ("", "-") else "0")
 
 CHECK = C08
